@@ -12,6 +12,10 @@
 #include <morfuse/Script/Context.h>
 #include <morfuse/Script/Listener.h>
 #include <morfuse/Script/SimpleEntity.h>
+#include <morfuse/Script/Parm.h>
+#include <morfuse/Script/Game.h>
+#include <morfuse/Script/Level.h>
+#include <morfuse/Script/ScriptThread.h>
 #include <morfuse/Script/Event.h>
 #include <morfuse/Script/EventSystem.h>
 #include <morfuse/Script/NamespaceManager.h>
